@@ -59,6 +59,7 @@ def run(chk):
         ok = any(c.get("fn") == iw["path"] for cb in f.closures_of(cp["path"]) for c in F.exprs(cb["thir"], "Call"))
         chk.ob("C14.ws/condition-filter", ok, "#if conditions are filtered with is_whitespace()" if ok else "the #if condition parser no longer filters trivia with is_whitespace()", where(cp))
     rule_adj(chk)
+    rule_comment_scan(chk)
     rule_line(chk, ip)
 
 
@@ -163,3 +164,53 @@ def rule_line(chk, ip):
                "write_message no longer derives the printed position from get_file_location", where(wm))
         unk = any(x.get("k") == "Const" and short(x["path"]) == "UNKNOWN" for x in F.walk(wm["thir"]))
         chk.ob("C14.diag/unknown-only", unk, "the position is omitted only for SourceLocation::UNKNOWN" if unk else "the UNKNOWN test around the position is gone", where(wm))
+
+
+def rule_comment_scan(chk):
+    """Comments are one trivia token from their opener to their terminator: in line_comment / block_comment the opener
+    is recognised with starts_with(<literal>), and no slice of the input that the scan for the end works on starts
+    before the end of that opener (otherwise the opener's own bytes can be read as part of the terminator: `/*/`)."""
+    f = chk.facts
+    for name, opener, closer in (("line_comment", "//", None), ("block_comment", "/*", "*/")):
+        fn = chk.anchor("C14.anchor/" + name, f.fn(name, "rssl_preprocess"), name)
+        if not fn:
+            continue
+        pid = (fn["params"][0].get("pat") or {}).get("id")
+        opens = []
+        for c in F.exprs(fn["thir"], "Call"):
+            if short(c.get("fn") or "") == "starts_with" and (F.leftmost_var(c["args"][0]) or {}).get("id") == pid:
+                l = F.lit(F.strip(c["args"][1]))
+                if l:
+                    opens.append(l[1])
+        chk.ob("C14.comment/%s/opener" % name, opens == [opener], "recognised by starts_with(%r)" % opener if opens == [opener] else
+               "%s tests the input for %s, must be exactly %r" % (name, opens, opener), where(fn))
+        lets = {}
+        for s in F.walk(fn["thir"]):
+            if s.get("k") == "LetStmt" and s.get("pat", {}).get("k") == "Bind" and "init" in s:
+                l = F.lit(F.strip(s["init"]))
+                if l and l[0] == "int":
+                    lets[s["pat"]["id"]] = l[1]
+        starts = []
+        for c in F.exprs(fn["thir"], "Call"):
+            if short(c.get("fn") or "") != "index" or len(c.get("args", [])) < 2:
+                continue
+            if (F.leftmost_var(c["args"][0]) or {}).get("id") != pid:
+                continue
+            r = F.strip(c["args"][1])
+            if r.get("k") == "Adt" and short(r["adt"]) in ("RangeFrom", "Range"):
+                st = F.strip({str(x["f"]): x["e"] for x in r["fields"]}["start"])
+                l = F.lit(st)
+                if l and l[0] == "int":
+                    starts.append((l[1], c))
+                elif st.get("k") == "Var" and st["id"] in lets:
+                    starts.append((lets[st["id"]], c))
+        bad = [(k, c) for k, c in starts if k < len(opener)]
+        chk.ob("C14.comment/%s/scan-after-opener" % name, bool(starts) and not bad,
+               "the scan for the end of the comment starts at offset %s, after the %d-byte opener" % (sorted({k for k, _ in starts}), len(opener)) if starts and not bad else
+               ("%s scans input[%d..] for the end of the comment, which overlaps the %d-byte opener %r: the opener's last byte can be taken as the start of the terminator, the comment ends early and its body is lexed as code"
+                % (name, bad[0][0], len(opener), opener) if bad else "anchor-missing: no constant-offset slice of the input in " + name), where(fn, bad[0][1]) if bad else where(fn))
+        if closer:
+            cl = [F.lit(x)[1] for x in F.exprs(fn["thir"], "Lit") if F.lit(x) and F.lit(x)[0] == "bytes"]
+            chk.ob("C14.comment/%s/terminator" % name, closer in cl, "terminated by %r" % closer if closer in cl else "%s no longer looks for %r" % (name, closer), where(fn))
+        toks = {a.get("variant") for a in F.exprs(fn["thir"], "Adt") if short(a["adt"]) == "Token"}
+        chk.ob("C14.comment/%s/token" % name, toks == {"Comment"}, "produces Token::Comment only" if toks == {"Comment"} else "%s produces %s" % (name, sorted(toks)), where(fn))
